@@ -111,7 +111,7 @@ func newCloseModel(raw json.RawMessage) *closeModel {
 // not even observe the agent any more).
 func (m *closeModel) wedges(e string) bool {
 	kind, arg, _ := strings.Cut(e, ":")
-	if kind == "restart" && (m.cs[0].closed || m.cs[1].closed) {
+	if (kind == "restart" || kind == "offer" || kind == "answer") && (m.cs[0].closed || m.cs[1].closed) {
 		return true // a restart needs both agents
 	}
 	for i, c := range m.cs {
